@@ -114,8 +114,9 @@ bool op_admissible(const Bench& b, int op, int level, std::string* why)
     case OP_DS_TAKE:
         if (g.nr() < 5 || g.ntheta() < 4)
             return no("direct solver needs nr>=5, ntheta>=4");
-        if (g.numberSmootherCircles() < 1 || g.lengthSmootherRadial() < 3)
-            return no("direct solver stencil tables need a circle and >=3 radial nodes");
+        // (the "radial indexing only" numbering of an explicit splitting radius below R0 is documented and legal here)
+        if (g.lengthSmootherRadial() < 3)
+            return no("direct solver stencil tables need >=3 radial nodes");
         break;
     case OP_SM_GIVE:
     case OP_SM_TAKE:
